@@ -210,6 +210,16 @@ template <class T> static void helpers (uint64_t seed, int count)
           Rec r ("fn"); r.str ("fn", "sinx_over_x"); r.str ("t", t); r.raw ("a", jlist (std::vector<T>{xs, (T) std::sin (xs)}.data (), 2)); r.raw ("out", jv (sinx_over_x (xs))); r.emit (); }
         { Rec r ("fn"); r.str ("fn", "sign"); r.str ("t", t); r.raw ("a", jlist (std::vector<T>{a}.data (), 1)); r.raw ("out", jv ((T) sign (a))); r.emit (); }
     }
+    // lerp between endpoints of very different magnitude, at and near the ends: a (1 - t) + b t is the endpoint itself at t = 0 / 1
+    {
+        const T mags[] = {1, (T) 3.5, (T) 1e8, (T) -1e8, (T) 1e-8, (T) 6.25e20, (T) -1e-20};
+        const T ts[] = {0, 1, (T) 0.5, (T) 0.25, std::nextafter ((T) 1, (T) 0), (T) std::ldexp (1.0, -20)};
+        for (T a : mags) for (T b : mags) for (T tt : ts)
+        {
+            { Rec r ("fn"); r.str ("fn", "lerp"); r.str ("t", t); r.raw ("a", jlist (std::vector<T>{a, b, tt}.data (), 3)); r.raw ("out", jv (lerp (a, b, tt))); r.emit (); }
+            { Rec r ("fn"); r.str ("fn", "ulerp"); r.str ("t", t); r.raw ("a", jlist (std::vector<T>{a, b, tt}.data (), 3)); r.raw ("out", jv (ulerp (a, b, tt))); r.emit (); }
+        }
+    }
     // lerpfactor near the overflow guard: |m - a| against max * |b - a|
     const T big = std::numeric_limits<T>::max ();
     const T ds[] = {0, std::numeric_limits<T>::denorm_min (), std::numeric_limits<T>::min (), (T) 1e-30, (T) 1e-10, (T) 0.5, 1, 2};
@@ -219,6 +229,58 @@ template <class T> static void helpers (uint64_t seed, int count)
         T a = 0, b = (s & 1) ? -d : d, m = (s & 2) ? -n : n;
         Rec r ("fn"); r.str ("fn", "lerpfactor"); r.str ("t", t); r.raw ("a", jlist (std::vector<T>{m, a, b}.data (), 3)); r.raw ("out", jv (lerpfactor (m, a, b))); r.emit ();
     }
+}
+
+// integer element types: lerp / ulerp with a float factor, equalWithAbsError / equalWithRelError, clamp, abs, sign, cmp.
+// Values stay below 2^30 in magnitude (no signed overflow, and the checker's integers hold them); factors are dyadic, so the
+// real-valued result is exact in float and the conversion to the element type truncates it.
+template <class T> static void int_helpers_T (const char* tag, VtRng& rng, int count)
+{
+    const bool sg = std::numeric_limits<T>::is_signed;
+    const long hi = std::min<long> ((long) std::numeric_limits<T>::max (), (1L << 30) - 1);
+    const long lo = sg ? std::max<long> ((long) std::numeric_limits<T>::lowest (), -((1L << 30) - 1)) : 0;
+    auto pick = [&] () -> long {
+        switch (rng.below (5))
+        {
+            case 0: return rng.below (2) ? hi : lo;                       // the limits of the type
+            case 1: return sg ? rng.range (-9, 9) : rng.range (0, 18);
+            case 2: return hi - (long) rng.below (4);
+            case 3: return lo + (long) rng.below (4);
+            default: return lo + (long) (rng.next () % (uint64_t) (hi - lo + 1));
+        }
+    };
+    for (int k = 0; k < count * 40; ++k)
+    {
+        long a = pick (), b = pick (), e = (long) (rng.below (3) ? rng.below (20) : (rng.next () % (uint64_t) (hi + 1)));
+        if (k % 9 == 0) b = a;
+        if (k % 9 == 1 && a + e <= hi) b = a + e;                          // exactly on the tolerance
+        if (k % 9 == 2 && a + e + 1 <= hi) b = a + e + 1;                  // one beyond it
+        if (k % 9 == 3 && a - e >= lo) b = a - e;
+        T x = (T) a, y = (T) b, tol = (T) e;
+        fprintf (o, "{\"e\":\"ifn\",\"fn\":\"eqabs\",\"t\":\"%s\",\"a\":[%ld,%ld,%ld],\"out\":%d}\n", tag, a, b, e, (int) equalWithAbsError (x, y, tol));
+        fprintf (o, "{\"e\":\"ifn\",\"fn\":\"cmp\",\"t\":\"%s\",\"a\":[%ld,%ld],\"out\":%d}\n", tag, a, b, (int) cmp (x, y));
+        { long l = std::min (b, e), h = std::max (b, e); if (h <= hi) fprintf (o, "{\"e\":\"ifn\",\"fn\":\"clamp\",\"t\":\"%s\",\"a\":[%ld,%ld,%ld],\"out\":%ld}\n", tag, a, l, h, (long) clamp (x, (T) l, (T) h)); }
+        if (sg && a > lo) fprintf (o, "{\"e\":\"ifn\",\"fn\":\"abs\",\"t\":\"%s\",\"a\":[%ld],\"out\":%ld}\n", tag, a, (long) IMATH_INTERNAL_NAMESPACE::abs (x));
+        fprintf (o, "{\"e\":\"ifn\",\"fn\":\"sign\",\"t\":\"%s\",\"a\":[%ld],\"out\":%d}\n", tag, a, (int) sign (x));
+        // relative tolerance with a small multiplier: e * |x1| stays far from the limits
+        { long sa = sg ? rng.range (-1000, 1000) : rng.range (0, 2000), sb = sa + rng.range (-30, 30), se = (long) rng.below (4);
+          if (sa < lo) sa = lo; if (sa > hi) sa = hi; if (sb < lo) sb = lo; if (sb > hi) sb = hi;
+          fprintf (o, "{\"e\":\"ifn\",\"fn\":\"eqrel\",\"t\":\"%s\",\"a\":[%ld,%ld,%ld],\"out\":%d}\n", tag, sa, sb, se, (int) equalWithRelError ((T) sa, (T) sb, (T) se)); }
+        // lerp / ulerp: operands small enough for float arithmetic to be exact (|.| < 2^12), factor k/8 in [0, 1]
+        { long la = sg ? rng.range (-4000, 4000) : rng.range (0, 4000), lb = sg ? rng.range (-4000, 4000) : rng.range (0, 4000); int num = (int) rng.below (9);
+          if (la > hi) la = hi; if (lb > hi) lb = hi; if (la < lo) la = lo; if (lb < lo) lb = lo;
+          float t = (float) num / 8.0f;
+              fprintf (o, "{\"e\":\"ifn\",\"fn\":\"lerp\",\"t\":\"%s\",\"a\":[%ld,%ld,%d],\"out\":%ld}\n", tag, la, lb, num, (long) lerp ((T) la, (T) lb, t));
+          fprintf (o, "{\"e\":\"ifn\",\"fn\":\"ulerp\",\"t\":\"%s\",\"a\":[%ld,%ld,%d],\"out\":%ld}\n", tag, la, lb, num, (long) ulerp ((T) la, (T) lb, t)); }
+    }
+}
+static void int_helpers (uint64_t seed, int count)
+{
+    VtRng rng (seed + 31);
+    int_helpers_T<int> ("i32", rng, count); int_helpers_T<unsigned int> ("u32", rng, count);
+    int_helpers_T<short> ("i16", rng, count); int_helpers_T<unsigned short> ("u16", rng, count);
+    int_helpers_T<unsigned char> ("u8", rng, count); int_helpers_T<signed char> ("i8", rng, count);
+    int_helpers_T<long> ("i64", rng, count);
 }
 
 template <class T> static void roots (uint64_t seed, int count)
@@ -370,7 +432,7 @@ int main (int argc, char** argv)
     else
     {
         doubles (seed, n); intdiv (seed, n);
-        helpers<float> (seed, n); helpers<double> (seed, n);
+        helpers<float> (seed, n); helpers<double> (seed, n); int_helpers (seed, n);
         roots<float> (seed, n); roots<double> (seed, n);
         colours<float> (seed, n); colours<double> (seed, n);
         if (seed % 16 == 1) intcolours ();
